@@ -6,6 +6,7 @@
    jets.  Points: every venv with r <> 0, sin theta <> 0 (resp. rho <> 0). *)
 From Coq Require Import Reals List.
 From ND.lib Require Import Expr.
+From ND.lib Require Atan2.
 From ND.gen Require Import Gen_C09.
 From ND.proofs Require Import C09_spec C09_sph C09_cyl C09_conv.
 Import ListNotations.
@@ -133,3 +134,23 @@ Proof. intros a (H1 & H2 & H3 & H4). exact (c2cyl_cyl2c a H1 H2). Qed.
 Theorem C09_c2cyl_ranges : forall atan2, atan2_contract atan2 -> forall penv fenv x y z,
   let q := c2cyl atan2 penv fenv (env3 x y z) in 0 <= q 0%nat /\ - PI < q 1%nat <= PI.
 Proof. intros a (H1 & H2 & H3 & H4). exact (c2cyl_ranges a H3). Qed.
+
+(* ---- the contract is satisfiable, and for the concrete two-argument arctangent of lib/Atan2.v the
+   conversion theorems need no hypothesis about atan2 at all; with theta strictly inside (0, pi) the
+   spherical round trip returns the polar angle itself. *)
+Theorem C09_atan2_contract_satisfiable : atan2_contract Atan2.atan2.
+Proof. exact (conj Atan2.atan2_cos (conj Atan2.atan2_sin (conj Atan2.atan2_range Atan2.atan2_upper))). Qed.
+
+Theorem C09_c2s_s2c_concrete : forall penv fenv r th ph, 0 < r -> 0 < sin th ->
+  let q := c2s Atan2.atan2 penv fenv (s2c penv fenv (env3 r th ph)) in
+  q 0%nat = r /\ cos (q 1%nat) = cos th /\ sin (q 1%nat) = sin th /\
+  cos (q 2%nat) = cos ph /\ sin (q 2%nat) = sin ph.
+Proof. exact c2s_s2c_atan2. Qed.
+
+Theorem C09_s2c_c2s_concrete : forall penv fenv x y z, x * x + y * y <> 0 ->
+  let q := s2c penv fenv (c2s Atan2.atan2 penv fenv (env3 x y z)) in q 0%nat = x /\ q 1%nat = y /\ q 2%nat = z.
+Proof. exact s2c_c2s_atan2. Qed.
+
+Theorem C09_c2s_theta_exact : forall penv fenv r th ph, 0 < r -> 0 < th < PI ->
+  c2s Atan2.atan2 penv fenv (s2c penv fenv (env3 r th ph)) 1%nat = th.
+Proof. exact c2s_s2c_theta_exact. Qed.
